@@ -204,7 +204,7 @@ class Link(object):
             raise SimTransportError("reset")
         lim = c.fault_limit("out", c.out_off)
         if c.wnone:
-            k = len(data) if lim is None else min(len(data), lim)
+            k = len(data)
             ret = None
         else:
             if c.ofrag_left is None and c.ofrags:
